@@ -7,8 +7,9 @@ import (
 )
 
 type printer struct {
-	sb    *strings.Builder
-	names map[*Term]string // shared closed subterms already defined
+	sb     *strings.Builder
+	names  map[*Term]string // shared closed subterms already defined
+	letCtr int
 }
 
 func sym(name string) string {
@@ -81,7 +82,45 @@ func (p *printer) term(t *Term) {
 		if len(t.Pats) > 0 {
 			p.sb.WriteString("(! ")
 		}
+		// shared subterms of the body that are not named globally (they contain a bound variable) are let-bound
+		refs := map[*Term]int{}
+		var order []*Term
+		var count func(x *Term)
+		count = func(x *Term) {
+			if _, named := p.names[x]; named {
+				return
+			}
+			refs[x]++
+			if refs[x] > 1 {
+				return
+			}
+			for _, a := range x.Args {
+				count(a)
+			}
+			order = append(order, x)
+		}
+		count(t.Args[0])
+		lets := 0
+		var bound []*Term
+		for _, x := range order {
+			if refs[x] > 1 && len(x.Args) > 0 && x != t.Args[0] {
+				name := fmt.Sprintf("l!%d", p.letCtr)
+				p.letCtr++
+				fmt.Fprintf(p.sb, "(let ((%s ", name)
+				p.term(x)
+				p.sb.WriteString(")) ")
+				p.names[x] = name
+				bound = append(bound, x)
+				lets++
+			}
+		}
 		p.term(t.Args[0])
+		for i := 0; i < lets; i++ {
+			p.sb.WriteByte(')')
+		}
+		for _, x := range bound {
+			delete(p.names, x)
+		}
 		if len(t.Pats) > 0 {
 			p.sb.WriteString(" :pattern (")
 			for i, pt := range t.Pats {
